@@ -38,12 +38,12 @@ for p in ("C03", "C12", "C13", "C14", "C15"):
 NOT_COVERED["C12"] = ["'all events of all sources are delivered' is partial correctness (termination of a run is not proved)",
                       "global non-decreasing order is carried by the clock: events of a pass have when <= clock and the clock never moves backwards; `when == clock` for every delivered event needs the sources' own monotonicity (hypothesis of the property) and is not derived",
                       "exactly-once is proved slot-wise for the multiplexer (no_loss / consumed); the hand-over `_event_handlers.get(source)` -> EventDispatch.handlers is by inspection of one expression",
-                      "tie order between sources (earliest subscribed first) is not expressed: dict iteration order is not modelled"]
+                      "tie order between sources: proved for the multiplexer (pop serves the source subscribed first among due events of equal time; the dict's insertion order is a ghost rank); that subscribe() preserves the order across the two tables is by the `add` contract only"]
 NOT_COVERED["C13"] = ["exactly-once across a whole run is per call: each call of _dispatch_scheduled drains every job due at its bound, pop removes exactly one minimal job; the final drain bound is >= every queued job (peek_last = max)",
                       "'in non-decreasing scheduled-time order' holds per pop (a minimum of the queue at that time); jobs scheduled into the past by handlers run late by design",
                       "a heap list manipulated other than through heapq (append, sort, ...) is outside the set abstraction: reported as undecided, not as a violation"]
-NOT_COVERED["C14"] = ["EventDispatcher.run (signal handlers, two async-with task groups, asynccontextmanager): phase order and finalize-exactly-once are not under contract",
-                      "TaskGroup.__aexit__", "RealtimeDispatcher._on_idle body (trusted contract; its precondition `pool idle` is proved at the call site)",
+NOT_COVERED["C14"] = ["EventDispatcher.run (signal handlers, two async-with task groups, asynccontextmanager): phase order, finalize-exactly-once and 'handlers in flight are cancelled, not awaited' are not under contract in the committed machinery -- a contract exists (contracts/attic_run.py) but its 243 paths / 5402 obligations did not discharge within 16 CPU-hours",
+                      "RealtimeDispatcher._on_idle body (trusted contract; its precondition `pool idle` is proved at the call site)",
                       "bounded concurrency is the TaskPool invariant |_tasks| <= _max_size under both interference models; that every user coroutine goes through the pool is by inspection of the call sites"]
 NOT_COVERED["C15"] = ["'every event and job is eventually dispatched once due' is liveness (fairness of the asyncio loop, termination of handlers): not covered",
                       "RealtimeDispatcher._on_idle body (trusted)"]
@@ -66,7 +66,7 @@ NOT_COVERED["C19"] = [
 NOT_COVERED["C03"] = [
     "clause 1 (every fill later than the submission) is carried by four obligations -- the pass consists of events that existed when it began (no_late_joiners, exposed F-C03-1, fixed), the exchange matches orders before it re-publishes the bar (matched_before_republish), a fill is stamped with the bar event's time (fill_time), submitting an order never fills it (add_order) -- plus the hypothesis that the clock equals the time of the event being handled; the induction over passes that composes them is argued in DESIGN, not machine-checked",
     "clause 2 (results independent of max_concurrent, hash seed, run): the repo-side dependence on the pool size is what no_late_joiners removes; that ready tasks start in creation order and a non-suspending handler runs to completion is the asyncio assumption; set iteration order is covered in that every loop over a set/dict is proved for an arbitrary order",
-    "tie order between sources with equal timestamps (earliest subscribed first) is not expressed",
+    "tie order between sources with equal timestamps is proved for EventMultiplexer.pop (earliest subscribed first)",
 ]
 LEVELS["C10"] = "other"
 NOT_COVERED["C10"] = [
